@@ -21,11 +21,13 @@ import (
 	"testing"
 	"time"
 
+	"github.com/aergoio/aergo-lib/log"
 	"github.com/aergoio/aergo/v2/chain"
 	"github.com/aergoio/aergo/v2/config"
 	"github.com/aergoio/aergo/v2/consensus"
 	"github.com/aergoio/aergo/v2/consensus/impl/dpos/bp"
 	"github.com/aergoio/aergo/v2/consensus/impl/dpos/slot"
+	"github.com/aergoio/aergo/v2/p2p/p2pkey"
 	"github.com/aergoio/aergo/v2/state"
 	"github.com/aergoio/aergo/v2/types"
 	"github.com/libp2p/go-libp2p/core/crypto"
@@ -158,8 +160,14 @@ func TestVerifC09DposChainEngine(t *testing.T) {
 	pubBytes := make([][]byte, c09cKeys)
 	ids := make([]string, c09cKeys)
 	keyOf := map[string]int{}
+	// LOCAL IDENTITY: the node under test has a node key (p2pkey) like a running block producer, and
+	// key 0 of the table is that key: blocks whose header names key 0 name the verifying node itself.
+	p2pkey.InitNodeInfo(&config.BaseConfig{AuthDir: t.TempDir()}, &config.P2PConfig{}, "0.0.1-verif", log.NewLogger("verif.c09"))
 	for i := range privs {
 		p, pub, _ := crypto.GenerateKeyPair(crypto.Secp256k1, 256)
+		if i == 0 {
+			p, pub = p2pkey.NodePrivKey(), p2pkey.NodePubKey()
+		}
 		privs[i] = p
 		pubBytes[i], _ = crypto.MarshalPublicKey(pub)
 		id, _ := types.IDFromPublicKey(pub)
